@@ -26,6 +26,8 @@ pub enum Op {
     ZeroAnywhere { len: u64 },
     Anywhere { len: u64, seed: u64, named: bool },
     InitStack { len: u64 },
+    /// init_stack_program_start with argv/envp strings of the given lengths
+    ProgramStart { len: u64, argv: Vec<u64>, envp: Vec<u64> },
     Resize { start: u64, new_len: u64 },
     Prot { start: u64, prot: u32 },
     ReadBytes { addr: u64, len: u64 },
@@ -40,6 +42,9 @@ pub enum Op {
     GuestCall { rsp: u64 },
     GuestRet { rsp: u64 },
     GuestFetch { addr: u64 },
+    /// make an area executable, run `mov eax, imm1` there, overwrite only the immediate (API write or
+    /// guest store), run it again: the second run must see the new bytes
+    CodePatch { start: u64, off: u64, imm1: u32, imm2: u32, guest: bool },
 }
 
 #[derive(Serialize, Deserialize, Clone, Debug, PartialEq)]
@@ -391,7 +396,12 @@ impl<'a> Ex<'a> {
             return;
         }
         let end = start as u128 + len as u128;
-        let keys: Vec<u64> = self.flat.range(start..).take_while(|(k, _)| (**k as u128) < end).map(|(k, _)| *k).collect();
+        let mut keys: Vec<u64> = self.flat.range(start..).take_while(|(k, _)| (**k as u128) < end).map(|(k, _)| *k).collect();
+        if end > 1u128 << 64 {
+            // the range wraps around the end of the address space
+            let rest = (end - (1u128 << 64)) as u64;
+            keys.extend(self.flat.range(..rest).map(|(k, _)| *k));
+        }
         for k in keys {
             self.flat.remove(&k);
         }
@@ -827,6 +837,60 @@ impl<'a> Ex<'a> {
         self.flat_forget(lo, 24);
     }
 
+    /// instruction fetch is a read like any other: it must return the bytes most recently written,
+    /// also when only the tail of an already executed instruction was overwritten
+    fn code_patch(&mut self, start: u64, off: u64, imm1: u32, imm2: u32, guest: bool) {
+        if self.overlapping || self.m.areas.iter().filter(|a| a.start == start).count() != 1 {
+            return;
+        }
+        let i = self.m.areas.iter().position(|a| a.start == start).unwrap();
+        let (len, old_prot) = (self.m.areas[i].len, self.m.areas[i].prot);
+        let addr = start.wrapping_add(off);
+        if len < 8 || off > len - 8 || (addr as u128 + 8) > (1u128 << 64) || self.m.containing(addr, 8) != Some(i) {
+            self.ctx.probe("code_patch_skipped");
+            return;
+        }
+        self.prot(start, 7);
+        let mut code = vec![0xb8u8];
+        code.extend_from_slice(&imm1.to_le_bytes());
+        code.extend_from_slice(&[0x90, 0x90, 0x90]);
+        self.api_write("write_bytes", addr, code, None);
+        let mut run = |this: &mut Self| -> Option<u64> {
+            let _ = this.ax.reg_write_64(SupportedRegister::RIP, addr);
+            let _ = this.ax.reg_write_64(SupportedRegister::RAX, 0x1111_2222_3333_4444);
+            let out = do_step(&mut this.ax);
+            this.ctx.guest_steps += 1;
+            let rax = this.ax.reg_read_64(SupportedRegister::RAX).ok();
+            let o = Model::from_ax(&this.ax);
+            this.m.gpr = o.gpr;
+            this.m.rip = o.rip;
+            match out {
+                StepOut::Ok(_) => rax,
+                StepOut::Err(_) => None,
+                StepOut::Panic(p) => {
+                    this.ctx.dev("C08", format!("C08|code_patch|{}", p.class()), format!("executing patched code at {addr:#x} panicked: {} at {}", p.msg, p.loc));
+                    None
+                }
+            }
+        };
+        let first = run(self);
+        if first != Some(imm1 as u64) {
+            self.ctx.dev("C08", "C08|code_patch|first_execution".into(), format!("mov eax, {imm1:#x} written to {addr:#x} gave RAX = {first:x?}"));
+        }
+        if guest {
+            self.guest("store", 4, addr + 1, imm2 as u128);
+        } else {
+            self.api_write("write_bytes", addr + 1, imm2.to_le_bytes().to_vec(), None);
+        }
+        let second = run(self);
+        self.ctx.event(&format!("code_patch:{}:{}", if guest { "guest_store" } else { "api_write" }, if second == Some(imm2 as u64) { "fresh" } else { "other" }), "");
+        if second != Some(imm2 as u64) {
+            let cls = if second == Some(imm1 as u64) && imm1 != imm2 { "stale_instruction_bytes" } else { "patched_instruction_result" };
+            self.ctx.dev("C08", format!("C08|fetch|{cls}"), format!("the immediate of an executed mov eax, imm32 at {addr:#x} was overwritten with {imm2:#x} ({}); executing it again gave RAX = {second:x?}", if guest { "guest store" } else { "mem_write_bytes" }));
+        }
+        self.prot(start, old_prot);
+    }
+
     fn guest_fetch(&mut self, addr: u64) {
         let _ = self.ax.reg_write_64(SupportedRegister::RIP, addr);
         self.m.rip = addr;
@@ -1057,6 +1121,78 @@ impl<'a> Ex<'a> {
         self.check_areas("C10", "C10|init_stack|created_area_differs", &format!("after init_stack({len}) -> {}", r.class()));
     }
 
+    /// init_stack_program_start creates one area per string plus the stack: whatever it creates must
+    /// be disjoint from everything that existed and from each other, old areas stay as they were,
+    /// and the stack holds at least the requested length with RSP inside it
+    fn program_start(&mut self, len: u64, argv: &[u64], envp: &[u64]) {
+        let mk = |ls: &[u64], c: char| -> Vec<String> { ls.iter().map(|n| std::iter::repeat(c).take(*n as usize).collect()).collect() };
+        let (a, e) = (mk(argv, 'a'), mk(envp, 'e'));
+        // as for 'anywhere': termination is judged only where the legitimate linear searches for the
+        // strings are short on the model layout
+        {
+            let mut placed: Vec<(u64, u64)> = Vec::new();
+            let mut n: u64 = 0;
+            for l in argv.iter().chain(envp.iter()).map(|n| n + 1) {
+                let mut s: u64 = 0x1000;
+                while (!self.m.free(s, l, None) || placed.iter().any(|p| intersects(s, l, p.0, p.1))) && n <= E1_FUEL / 4 {
+                    s = s.wrapping_add(l);
+                    n += 1;
+                }
+                placed.push((s, l));
+            }
+            if n > E1_FUEL / 4 {
+                self.ctx.probe("program_start_skipped_long_search");
+                return;
+            }
+        }
+        ax_x86::verif::set_fuel(Some(E1_FUEL));
+        let r = call(|| self.ax.init_stack_program_start(len, a, e));
+        let fuel_out = ax_x86::verif::fuel_was_exhausted();
+        self.ctx.event(&format!("program_start:{}:{}:{}:{}", len_class(len), argv.len(), envp.len(), r.class()), &format!("{len}"));
+        let sig = format!("C10|program_start|{}", len_class(len));
+        if let R::Panic(_) = r {
+            self.ctx.dev("C10", format!("{sig}|{}", r.class()), format!("init_stack_program_start({len}, {argv:?}, {envp:?}) -> {}", r.detail()));
+        }
+        if fuel_out {
+            self.ctx.dev("C10", format!("{sig}|fuel_exhausted"), "init_stack_program_start did not terminate within the retry budget".into());
+        }
+        let after = Model::from_ax(&self.ax);
+        let mut old: Vec<(u64, u64)> = self.m.areas.iter().map(|a| (a.start, a.len)).collect();
+        let mut fresh: Vec<MArea> = Vec::new();
+        for a in after.areas.iter() {
+            if let Some(k) = old.iter().position(|o| *o == (a.start, a.len)) {
+                old.swap_remove(k);
+            } else {
+                fresh.push(MArea { start: a.start, len: a.len, prot: a.prot, data: a.data.clone() });
+            }
+        }
+        for (k, f) in fresh.iter().enumerate() {
+            let clash_old = !self.m.free(f.start, f.len, None);
+            let clash_new = fresh.iter().enumerate().any(|(j, g)| j != k && intersects(f.start, f.len, g.start, g.len));
+            if clash_old || clash_new {
+                self.ctx.dev("C10", format!("{sig}|created_area_overlaps"), format!("init_stack_program_start({len}, {argv:?}, {envp:?}) created [{:#x},+{:#x}) which intersects {} area", f.start, f.len, if clash_old { "an existing" } else { "another new" }));
+            }
+        }
+        if let R::Ok(_) = &r {
+            let rsp = self.ax.reg_read_64(SupportedRegister::RSP).unwrap_or(0);
+            match fresh.iter().find(|f| f.len > 0 && f.start <= rsp && (rsp as u128) < f.start as u128 + f.len as u128) {
+                Some(f) if f.len >= len => {}
+                Some(f) => self.ctx.dev("C10", format!("{sig}|stack_shorter_than_requested"), format!("stack area has {:#x} bytes, {len:#x} requested", f.len)),
+                None => {
+                    if len > 0 {
+                        self.ctx.dev("C10", format!("{sig}|rsp_outside_new_stack"), format!("RSP {rsp:#x} is in no area created by the call"))
+                    }
+                }
+            }
+        }
+        for f in fresh {
+            self.flat_forget(f.start, f.len);
+            self.m.areas.push(f);
+        }
+        self.m.gpr[6] = self.ax.reg_read_64(SupportedRegister::RSP).unwrap_or(0);
+        self.check_areas("C10", "C10|program_start|existing_area_changed", &format!("after init_stack_program_start({len}, {argv:?}, {envp:?}) -> {}", r.class()));
+    }
+
     fn resize(&mut self, start: u64, new_len: u64) {
         if self.m.areas.iter().filter(|a| a.start == start).count() > 1 {
             // several areas share this start (only possible with zero-length areas): which one is
@@ -1115,6 +1251,10 @@ impl<'a> Ex<'a> {
             let old_len = self.m.areas[i].len;
             let (lo, hi) = if new_len < old_len { (new_len, old_len) } else { (old_len, new_len) };
             self.flat_forget(start.wrapping_add(lo), hi - lo);
+            if new_len > old_len && hi - lo <= 0x2000 {
+                // grown memory starts out as zeros (C10); those are its initial contents for every later read
+                self.flat_write(start.wrapping_add(lo), &vec![0u8; (hi - lo) as usize]);
+            }
             let a = &mut self.m.areas[i];
             a.data.resize(new_len as usize, 0);
             a.len = new_len;
@@ -1166,7 +1306,7 @@ pub fn run(_prop: &str, sc: &Sc, ctx: &mut Ctx) {
         ex.ctx.nontrivial = true;
         // asking for more memory than a host has is outside the properties (and ax allocates before it validates)
         let alloc_len = match op {
-            Op::InitArea { len, .. } | Op::InitZero { len, .. } | Op::ZeroAnywhere { len } | Op::Anywhere { len, .. } | Op::InitStack { len } | Op::WriteBytes { len, .. } => *len,
+            Op::InitArea { len, .. } | Op::InitZero { len, .. } | Op::ZeroAnywhere { len } | Op::Anywhere { len, .. } | Op::InitStack { len } | Op::ProgramStart { len, .. } | Op::WriteBytes { len, .. } => *len,
             Op::Resize { new_len, .. } => *new_len,
             _ => 0,
         };
@@ -1182,6 +1322,7 @@ pub fn run(_prop: &str, sc: &Sc, ctx: &mut Ctx) {
             Op::ZeroAnywhere { len } => ex.anywhere("zero_anywhere", vec![0; *len as usize], true, false),
             Op::Anywhere { len, seed, named } => ex.anywhere("anywhere", fill(*seed, *len), false, *named),
             Op::InitStack { len } => ex.init_stack(*len),
+            Op::ProgramStart { len, argv, envp } => ex.program_start(*len, argv, envp),
             Op::Resize { start, new_len } => ex.resize(*start, *new_len),
             Op::Prot { start, prot } => ex.prot(*start, *prot),
             Op::ReadBytes { addr, len } => ex.api_read("read_bytes", *addr, *len, None),
@@ -1200,6 +1341,7 @@ pub fn run(_prop: &str, sc: &Sc, ctx: &mut Ctx) {
             Op::GuestCall { rsp } => ex.guest_stack("call", *rsp, 0),
             Op::GuestRet { rsp } => ex.guest_stack("ret", *rsp, 0),
             Op::GuestFetch { addr } => ex.guest_fetch(*addr),
+            Op::CodePatch { start, off, imm1, imm2, guest } => ex.code_patch(*start, *off, *imm1, *imm2, *guest),
         }
         if ex.ax.verif_finished() {
             // a template ran into the end of the code: cannot happen by construction
